@@ -846,6 +846,10 @@ func (in *Interp) fmtArgT(v Value, t types.Type, verb byte) Str {
 			}
 		}
 		return in.opaqueString("fmt")
+	case Ptr:
+		if s, ok := in.fmtPointer(x); ok { // opt-in "fmt:decimal" (intr_fmtdecimal.go)
+			return s
+		}
 	}
 	return in.opaqueString("fmt")
 }
